@@ -344,7 +344,11 @@ def check_case(ctx, case, base, cls, via_cli, rng):
     try:
         if via_cli:
             dump = os.path.join(base, "dump.json")
-            rc, out, err = cli.run("codebasin", ["-R", "summary", toml], root, launch={"dump": dump})
+            # verbosity options change what is echoed to the terminal, never what is logged or counted
+            verb = rng.choice([[], [], ["-v"], ["-q"], ["-q", "-q"], ["--debug"], ["-v", "-v"], ["--verbose"], ["--quiet"]])
+            if verb:
+                cells.add("verbosity:" + verb[0])
+            rc, out, err = cli.run("codebasin", verb + ["-R", "summary", toml], root, launch={"dump": dump})
             acc.hook("cli-runs")
             if rc != 0:
                 problems.append({"kind": "cli failed", "rc": rc, "stdout": out[-400:], "stderr": err[-400:]})
